@@ -10,7 +10,8 @@ buffered file is justified by `RaBuf.run_refines_flat` (every history of seek / 
 does on a healthy file) / a loop ran out of fuel.
 
 Bottom primitives (hand-written here; everything above them is generated):
-`seek`, `seekPosition`, `readU64Le`, `writeU64Le`, `writeZero`, `readVu64`, `writeVu64`.
+`seek`, `seekEnd`, `seekCur`, `seekPosition`, `readU8`, `readU64Le`, `writeU64Le`, `writeZero`, `readVu64`,
+`writeVu64`, `writeBytes` (`write_all`), `readBytes` (`read_exact_maybeslice`).
 -/
 namespace Abyss.FileM
 
@@ -46,8 +47,19 @@ def readBytes (n : Nat) : M (List Nat) := fun s =>
 def seek (p : Nat) : M Nat := fun s =>
   some (p, { bytes := s.bytes ++ List.replicate (p - s.bytes.length) 0, pos := p })
 
+/-- `seek(SeekFrom::End(0))`: the cursor goes to the end of the file, which is the result -/
+def seekEnd : M Nat := fun s => some (s.bytes.length, { s with pos := s.bytes.length })
+
+/-- `seek(SeekFrom::Current(n))` for `n ≥ 0` (rabuf: the same tail as `Start`, see `RaBuf.seekCur`) -/
+def seekCur (n : Nat) : M Nat := fun s => seek (s.pos + n) s
+
 /-- `stream_position()` -/
 def seekPosition : M Nat := fun s => some (s.pos, s)
+
+/-- `read_u8` -/
+def readU8 : M Nat := do
+  let bs ← readBytes 1
+  pure (bs.headD 0)
 
 /-- `read_u64_le` -/
 def readU64Le : M Nat := do
